@@ -473,7 +473,7 @@ replay = run_case
 
 
 def run(ctx):
-    depth = 3 if ctx.quick else 4
+    depth = 4 if ctx.quick else 5
     ctx.rule = ("E-enum (A): 46 RFC 5545 property names x their value menus (text incl. delimiters, int, geo, recur, offsets, "
                 "date / floating / UTC / zoned date-times, durations, periods, date lists incl. periods and mixed zones) x 5 "
                 "parameter maps x containers (2 from the RFC + X-COMP) x paths {add, item assignment, setter} x 2 providers; (B) all "
